@@ -571,9 +571,23 @@ def _genome_source_ok(ctx, ci, f, g, sn, defs):
     return False, f"genome `{t[:60]}` has no recognised box-respecting source"
 
 
-def _affine_ok(ctx, ci, f, e, sn, defs):
-    """lower + sample * (upper - lower) with sample from a qmc sampler's random()."""
+def _affine_ok(ctx, ci, f, e, sn, defs, unit_names=()):
+    """lower + sample * (upper - lower) with sample from a qmc sampler's random() (whole matrix, or row by row:
+    `[lower + u * (upper - lower) for u in sampler.random(n)]`)."""
+    def res(x):
+        hops = 0
+        while isinstance(x, ast.Name) and x.id in defs and len(defs[x.id]) == 1 and x.id not in unit_names and hops < 5:
+            x = defs[x.id][0]
+            hops += 1
+        return x
+
+    if isinstance(e, ast.ListComp) and len(e.generators) == 1 and not e.generators[0].ifs and isinstance(e.generators[0].target, ast.Name):
+        it = res(e.generators[0].iter)
+        if isinstance(it, ast.Call) and isinstance(it.func, ast.Attribute) and it.func.attr == "random" and is_self_attr(it.func.value, None, sn):
+            return _affine_ok(ctx, ci, f, e.elt, sn, defs, unit_names=(e.generators[0].target.id,))
+
     def col(x):
+        x = res(x)
         if is_self_attr(x, None, sn):
             init = ci.methods.get("__init__")
             if init:
@@ -592,6 +606,8 @@ def _affine_ok(ctx, ci, f, e, sn, defs):
         return None
 
     def is_unit_sample(x):
+        if isinstance(x, ast.Name) and x.id in unit_names:
+            return True
         r = x
         while isinstance(r, ast.Name) and r.id in defs and len(defs[r.id]) == 1:
             r = defs[r.id][0]
@@ -603,8 +619,10 @@ def _affine_ok(ctx, ci, f, e, sn, defs):
         return False, f"!`{norm(e)[:70]}` does not scale a unit sample between the lower and upper bounds"
     if isinstance(e, ast.BinOp) and isinstance(e.op, ast.Add):
         for a, b in ((e.left, e.right), (e.right, e.left)):
+            b = res(b)
             if col(a) == "lower" and isinstance(b, ast.BinOp) and isinstance(b.op, ast.Mult):
                 for s, w in ((b.left, b.right), (b.right, b.left)):
+                    w = res(w)
                     if is_unit_sample(s) and isinstance(w, ast.BinOp) and isinstance(w.op, ast.Sub) and col(w.left) == "upper" and col(w.right) == "lower":
                         return True, "lower + unit sample * (upper - lower)"
         return False, f"!`{norm(e)[:80]}` is not the affine map lower + u * (upper - lower) of a unit-cube sample: samples can land outside the box"
